@@ -117,10 +117,27 @@ class ExecuteWorkers(Contract):
 
 # ============================================================================ CallableParallelExecution.execute
 class _TCallbacks(TList):
-    """``exec_callback``: a list of callbacks, or (second variant) one callable."""
+    """``exec_callback: CallbackType | Iterable[CallbackType]``: both variants are verified (fork at function entry)."""
+
+    def fresh(self, st, hint):
+        if st.choose(2) == 0:
+            return super().fresh(st, hint)
+        return P.TCallback.fresh(st, hint)
 
 
-CBS = TList(P.TCallback)
+CBS = _TCallbacks(P.TCallback)
+
+
+class _One:
+    """The list view of the single-callable variant (execute wraps it: ``exec_callback = [exec_callback]``)."""
+
+    def __init__(self, term):
+        self.n, self.elems = z3.IntVal(1), z3.K(Int, term)
+
+
+def CB(c):
+    v = c.old.exec_callback
+    return _One(v) if z3.is_expr(v) else v
 
 
 def n_tasks(c):
@@ -159,6 +176,12 @@ def is_success(v):
     return z3.Not(P.is_exc(v))
 
 
+def succeeds(c, i):
+    """Task i is a success: its callable returned, and what it returned is not an exception instance (gemseo cannot tell a returned
+    exception instance from a raised one: both travel as the output in the out-queue)."""
+    return z3.And(z3.Not(fails(c, i)), is_success(value(c, i)))
+
+
 def reraise(c, v):
     return P.inst_of(v, c.old.self._CallableParallelExecution__exceptions_to_re_raise)
 
@@ -176,8 +199,11 @@ def delivery(c):
     n = n_tasks(c)
     i = P.out_index(P.RECV[j])
     o = P.out_output(P.RECV[j])
-    return FA([j], z3.Implies(z3.And(0 <= j, j < n),
-                                     z3.And(i == P.PERM[j], 0 <= i, i < n, P.INV[i] == j, z3.If(fails(c, i), P.is_exc(o), o == value(c, i)))), patterns=[P.RECV[j]])
+    t = z3.Int("i!dl")
+    return z3.And(
+        FA([j], z3.Implies(z3.And(0 <= j, j < n), z3.And(i == P.PERM[j], 0 <= i, i < n, P.INV[i] == j, z3.If(fails(c, i), P.is_exc(o), o == value(c, i)))), patterns=[P.RECV[j]]),
+        # every task is delivered: reception rank INV[t] of task t
+        FA([t], z3.Implies(z3.And(0 <= t, t < n), z3.And(0 <= P.INV[t], P.INV[t] < n, P.out_index(P.RECV[P.INV[t]]) == t)), patterns=[P.INV[t]]))
 
 
 def callbacks_done(c, cbn, cblog, k, cbs):
@@ -206,7 +232,7 @@ def outputs_after(c, lst, k):
     return [
         ("outputs:length", lst.n == n),
         ("outputs:positional", FA([i], z3.Implies(z3.And(0 <= i, i < n),
-                                                        lst.elems[i] == z3.If(z3.And(P.INV[i] < k, is_success(o)), o, val_none)), patterns=[lst.elems[i]])),
+                                                        lst.elems[i] == z3.If(z3.And(0 <= P.INV[i], P.INV[i] < k, is_success(o)), o, val_none)), patterns=[lst.elems[i]])),
     ]
 
 
@@ -236,7 +262,8 @@ def queues_empty(c):
 
 # ---- loop invariants
 def inv_create(c, k):
-    return procs_created(c, k, c.locals["processes"]) + [queues_empty(c)]
+    return procs_created(c, k, c.locals["processes"]) + [queues_empty(c),
+                                                         ("workers:startable", z3.Implies(k >= 1, z3.Or(c.old.self.use_threading, z3.Not(P.CUR_DAEMONIC))))]
 
 
 def inv_submit(c, k):
@@ -258,7 +285,7 @@ def inv_collect(c, k):
     stop = c.locals["stop"]
     out = [
         ("received:count", z3.And(c.locals["n_outputs"] == k, k <= n, G1(c, "qout_got") == k)),
-        ("delivery", delivery(c)),
+        ("delivery", z3.Implies(k >= 1, delivery(c))),
         ("stop:iff-last-received-is-to-be-re-raised", stop == z3.And(k >= 1, reraise(c, P.out_output(P.RECV[k - 1])))),
         ("stop:none-to-re-raise-before", no_reraise_before(c, k - 1)),
     ]
@@ -336,7 +363,7 @@ class Execute(Contract):
             # settings validate n_processes as a PositiveInt; with n_processes <= 0 no worker is started and queue_out.get() blocks for ever
             ("at-least-one-process", c.old.self.n_processes >= 1),
             # type of exceptions_to_re_raise: tuple[type[Exception], ...]
-            ("re-raised-classes-are-exception-classes", FA([v], z3.Implies(reraise(c, v), P.is_exc(v)))),
+            ("re-raised-classes-are-exception-classes", FA([v], z3.Implies(reraise(c, v), P.is_exc(v)), patterns=[reraise(c, v)])),
             # a process named SUBPROCESS_NAME is one of gemseo's worker processes, which are daemonic
             ("subprocess-name-only-in-workers", z3.Implies(P.CUR_PROC_NAME == P.str_lit(P_SUBPROCESS), P.CUR_DAEMONIC)),
         ]
@@ -365,21 +392,21 @@ class Execute(Contract):
         r = c.result
         i = z3.Int("i!post")
         m = z3.Int("m!post")
-        cbs = c.old.exec_callback
+        cbs = CB(c)
         cbn, cblog = G1(c, "cbn"), G1(c, "cblog")
         j = P.INV[i]
         in_sub = sub_path(c)
         out = [
             ("result:length", r.n == n),
             # positional match: slot i = output of task i if it succeeded (did not raise, did not return an exception instance), None otherwise
-            ("result:positional", FA([i], z3.Implies(z3.And(0 <= i, i < n), r.elems[i] == z3.If(z3.And(z3.Not(fails(c, i)), is_success(value(c, i))), value(c, i), val_none)),
+            ("result:positional", FA([i], z3.Implies(z3.And(0 <= i, i < n), r.elems[i] == z3.If(succeeds(c, i), value(c, i), val_none)),
                                             patterns=[r.elems[i]])),
             # task-indexed form of the callback clause: for task i there is exactly one reception (rank INV[i], PERM being a bijection) and the
             # callbacks were called for it exactly once each, in list order, with (i, output_i), iff the task succeeded
             ("callbacks:exactly-once-per-successful-task", z3.Implies(z3.Not(in_sub), FA([i], z3.Implies(
-                z3.And(0 <= i, i < n), z3.And(0 <= j, j < n, P.PERM[j] == i, cbn[j] == z3.If(z3.And(z3.Not(fails(c, i)), is_success(value(c, i))), cbs.n, 0))), patterns=[P.INV[i]]))),
+                z3.And(0 <= i, i < n), z3.And(0 <= j, j < n, P.PERM[j] == i, cbn[j] == z3.If(succeeds(c, i), cbs.n, 0))), patterns=[P.INV[i]]))),
             ("callbacks:matching-index-and-output", z3.Implies(z3.Not(in_sub), FA([i, m], z3.Implies(
-                z3.And(0 <= i, i < n, z3.Not(fails(c, i)), is_success(value(c, i)), 0 <= m, m < cbs.n), cblog[j][m] == P.CbRec.dt.mk(cbs.elems[m], i, value(c, i))), patterns=[cblog[P.INV[i]][m]]))),
+                z3.And(0 <= i, i < n, succeeds(c, i), 0 <= m, m < cbs.n), cblog[j][m] == P.CbRec.dt.mk(cbs.elems[m], i, value(c, i))), patterns=[cblog[P.INV[i]][m]]))),
             ("callbacks:no-other-call", z3.Implies(z3.Not(in_sub), callbacks_none_after(cbn, n)[1])),
         ]
         out += [(l, z3.Implies(z3.Not(in_sub), f)) for l, f in self._termination(c)]
@@ -393,8 +420,8 @@ class Execute(Contract):
         k = G1(c, "qout_got")
         n = n_tasks(c)
         last = P.out_output(P.RECV[k - 1])
-        cbs = c.old.exec_callback
+        cbs = CB(c)
         return [
             ("re-raised:is-the-first-listed-exception-received", z3.And(1 <= k, k <= n, G1(c, "raised") == last, reraise(c, last), no_reraise_before(c, k - 1))),
-            ("re-raised:comes-from-a-failed-task", z3.And(fails(c, P.out_index(P.RECV[k - 1])), 0 <= P.out_index(P.RECV[k - 1]), P.out_index(P.RECV[k - 1]) < n)),
+            ("re-raised:comes-from-an-unsuccessful-task", z3.And(z3.Not(succeeds(c, P.out_index(P.RECV[k - 1]))), 0 <= P.out_index(P.RECV[k - 1]), P.out_index(P.RECV[k - 1]) < n)),
         ] + callbacks_done(c, G1(c, "cbn"), G1(c, "cblog"), k, cbs) + [callbacks_none_after(G1(c, "cbn"), k)] + self._termination(c) + self._submit_callback(c)
